@@ -129,6 +129,29 @@ func runC05(c *Ctx) {
 			r.Undec("R-KIND", "writeErrorBatch", u.Pos(wf.Pos()), "error_kind key constant not found")
 		}
 	}
+	// R-DEBUG-PROVENANCE: the debug flag handed to the envelope writers is the server's debugErrors setting
+	dbgIdx := map[string]int{"writeErrorBatch": 5, "writeErrorResponse": 5, "buildErrorExtra": 1}
+	nd := 0
+	for _, f := range u.SrcFuncs() {
+		for _, cs := range u.Calls(f, func(s string) bool { _, ok := dbgIdx[s]; return ok }) {
+			nd++
+			d := u.Describe(cs.Arg(dbgIdx[cs.Callee]))
+			caller := shortName(f)
+			ok := strings.HasSuffix(d, ".debugErrors") || d == "debug"
+			if caller == "WriteErrorResponse" {
+				ok = true // exported helper for intermediaries: documented to always include debug details
+			}
+			r.Check(ok, "R-DEBUG-PROVENANCE", caller+"→"+cs.Callee, u.Pos(cs.Instr.Pos()), "debug flag = "+d, "the error envelope is written with debug="+d+" instead of the server's debugErrors setting: tracebacks and frames can reach clients although debug errors are disabled")
+		}
+		// the always-debug exported helper must not be used by the server's own dispatch paths
+		for _, cs := range u.Calls(f, Is("WriteErrorResponse")) {
+			r.Viol("R-DEBUG-PROVENANCE", shortName(f)+"→WriteErrorResponse", u.Pos(cs.Instr.Pos()), "server code calls the exported WriteErrorResponse, which hard-codes debug details on: tracebacks leak when debug errors are disabled")
+		}
+	}
+	if nd < 20 {
+		r.Undec("R-DEBUG-PROVENANCE", "sites", "-", "only "+itoa(nd)+" envelope-writer call sites found")
+	}
+
 	// R-DEBUG
 	n := 0
 	for _, f := range []string{"Traceback", "Frames"} {
